@@ -33,7 +33,7 @@ type Step struct {
 	R     int    `json:"r"`             // repository index
 	R2    int    `json:"r2,omitempty"`  // mount source
 	C     int    `json:"c"`             // content index
-	Bad   int    `json:"bad,omitempty"` // push: 0 truthful, 1 digest of other content, 2 size+1, 3 size-1
+	Bad   int    `json:"bad,omitempty"` // push: 0 truthful, 1 digest of other content, 2 size+1, 3 size-1, 4 digest and size of a proper prefix
 	Tag   int    `json:"tag,omitempty"`
 	Read  string `json:"read,omitempty"` // getBlob | resolveBlob | getManifest | resolveManifest | getTag | resolveTag
 	O0    int64  `json:"o0,omitempty"`
@@ -114,6 +114,14 @@ func run(s Script, v *vt.V) {
 				decl.Size++
 			case 3:
 				decl.Size--
+			case 4:
+				// digest and size of a proper prefix of the content: what is declared is consistent
+				// in itself, the content is longer
+				if len(data) >= 2 {
+					decl.Digest, decl.Size = sha(data[:len(data)-1]), int64(len(data)-1)
+				} else {
+					decl.Digest = wrongD
+				}
 			}
 			bad := st.Bad != 0
 			var perr error
@@ -124,9 +132,13 @@ func run(s Script, v *vt.V) {
 			}
 			switch path {
 			case "pushBlob":
-				_, perr = reg.PushBlob(ctx, repo, decl, bytes.NewReader(data))
+				var content io.Reader = bytes.NewReader(data)
+				if len(st.Parts)%2 == 1 {
+					content = struct{ io.Reader }{content} // a reader whose length cannot be asked for
+				}
+				_, perr = reg.PushBlob(ctx, repo, decl, content)
 			case "chunked":
-				if st.Bad >= 2 {
+				if st.Bad == 2 || st.Bad == 3 {
 					bad = false // a chunked upload declares no size
 					decl.Size = int64(len(data))
 				}
@@ -193,7 +205,7 @@ func run(s Script, v *vt.V) {
 					}
 				}
 			case "singlePost":
-				if st.Bad >= 2 {
+				if st.Bad == 2 || st.Bad == 3 {
 					bad = false // net/http owns Content-Length; only the digest can lie here
 				}
 				u := built.Servers[len(built.Servers)-1].URL + "/v2/" + repo + "/blobs/uploads/?digest=" + string(decl.Digest)
@@ -561,7 +573,7 @@ func genScript(t *rapid.T) Script {
 			st.R, st.C = rapid.IntRange(0, 2).Draw(t, "r"), rapid.IntRange(0, nc-1).Draw(t, "c")
 			st.Path = rapid.SampledFrom([]string{"pushBlob", "pushBlob", "chunked", "chunked", "singlePost", "mount", "manifest", "manifest", "rawManifestPut"}).Draw(t, "path")
 			if rapid.IntRange(0, 4).Draw(t, "bad") == 0 || st.Path == "rawManifestPut" {
-				st.Bad = rapid.IntRange(1, 3).Draw(t, "badKind")
+				st.Bad = rapid.IntRange(1, 4).Draw(t, "badKind")
 			}
 			switch st.Path {
 			case "chunked":
